@@ -34,6 +34,10 @@ Definition late (p : pc) : bool :=
 Definition inflight (p : pc) : list name :=
   match p with PCalc _ calcs tks => calcs ++ tks | PTask _ tks => tks | _ => [] end.
 
+(* the node's task was not handed to the runner yet *)
+Definition early (p : pc) : bool :=
+  match p with PLoop | PCalc _ _ _ | PTask _ _ | PSelf => true | _ => false end.
+
 Record node_ok (d : dstate) (me : name) (nd : node) : Prop := {
   ok_acc : forall x, In x (n_all_task nd ++ n_all_calc nd) ->
            In x (n_pend_task nd ++ n_pend_calc nd) \/ In x (inflight (n_pc nd)) \/
@@ -43,7 +47,8 @@ Record node_ok (d : dstate) (me : name) (nd : node) : Prop := {
             (n_pc nd <> PSetupWaited -> n_wrun nd = []);
   ok_setup : n_pc nd = PSetupWaited ->
              forall x, In x (t_setup (get_task me)) -> In x (n_wrun nd) \/ final d x;
-  ok_wsel : n_wsel nd = false
+  ok_wsel : n_wsel nd = false;
+  ok_early : early (n_pc nd) = true -> n_st nd = SNone
 }.
 
 Definition Inv (d : dstate) : Prop :=
@@ -90,7 +95,8 @@ Record node_okw (d : dstate) (nd : node) : Prop := {
            In x (n_pend_task nd ++ n_pend_calc nd) \/ In x (inflight (n_pc nd)) \/
            In x (n_wrun nd ++ n_wcalc nd) \/ final d x;
   okw_late : late (n_pc nd) = true -> n_pend_task nd = [] /\ n_pend_calc nd = [] /\ n_wcalc nd = [];
-  okw_wsel : n_wsel nd = false
+  okw_wsel : n_wsel nd = false;
+  okw_early : early (n_pc nd) = true -> n_st nd = SNone
 }.
 
 Lemma node_ok_okw d me nd : node_ok d me nd -> node_okw d nd.
@@ -489,9 +495,10 @@ Lemma node_okw_pc d me nd p :
   (late p = true -> n_pend_task nd = [] /\ n_pend_calc nd = [] /\ n_wcalc nd = [] /\
                     (p <> PSetupWaited -> n_wrun nd = [])) ->
   (p = PSetupWaited -> forall x, In x (t_setup (get_task me)) -> In x (n_wrun nd) \/ final d x) ->
+  (early p = true -> early (n_pc nd) = true) ->
   node_ok d me (nd_pc nd p).
 Proof.
-  intros [H1 H2 H3] Hin Hl Hs. split; simpl; auto.
+  intros [H1 H2 H3 H4] Hin Hl Hs He. split; simpl; auto.
   intros x Hx. destruct (H1 x Hx) as [H|[H|[H|H]]]; auto.
 Qed.
 
@@ -525,7 +532,8 @@ Definition step_post (d d' : dstate) (me : name) (y : gyield) : Prop :=
   (y <> YWait -> resumable d' me) /\
   (y <> YSelf -> Pre d') /\
   (y = YSelf -> deps_final d' me /\ (n_pc (node_of d' me) = PDone -> setup_final d' me) /\
-                (n_pc (node_of d' me) = PAfterSelf \/ n_pc (node_of d' me) = PDone)).
+                (n_pc (node_of d' me) = PAfterSelf \/ n_pc (node_of d' me) = PDone) /\
+                (n_pc (node_of d' me) = PAfterSelf -> st_of d' me = SNone)).
 
 Lemma step_post_trans d d1 d' me y :
   step_rel d d1 me -> step_post d1 d' me y -> step_post d d' me y.
@@ -563,15 +571,17 @@ Qed.
 Lemma set_pc_Inv_same d me p :
   Inv d ->
   inflight p = inflight (n_pc (node_of d me)) -> late p = late (n_pc (node_of d me)) ->
+  early p = early (n_pc (node_of d me)) ->
   p <> PSetupWaited -> n_pc (node_of d me) <> PSetupWaited ->
   Inv (set_pc d me p).
 Proof.
-  intros HI Ei El Hp Hq. unfold Dispatch.set_pc. apply Inv_set_node; auto.
-  destruct (node_of_ok d me HI) as [H1 H2 H3 H4].
+  intros HI Ei El Ee Hp Hq. unfold Dispatch.set_pc. apply Inv_set_node; auto.
+  destruct (node_of_ok d me HI) as [H1 H2 H3 H4 H5].
   split; simpl; auto.
   - rewrite Ei. exact H1.
   - rewrite El. intros L. destruct (H2 L) as (A & B & C & D). auto.
   - intros E. contradiction.
+  - rewrite Ee. exact H5.
 Qed.
 
 Lemma set_pc_rel d me p : step_rel d (set_pc d me p) me.
@@ -589,7 +599,7 @@ Proof.
   assert (REC : forall d1, Inv d1 -> step_rel d d1 me -> Pre d1 -> resumable d1 me ->
                 gen_step fuel d1 me = (y, d') -> step_post d d' me y).
   { intros d1 I1 R1 P1 Q1 G1. eapply step_post_trans; eauto. }
-  pose proof (node_of_ok d me HI) as Hok. destruct Hok as [Hacc Hlate Hsetup Hwsel].
+  pose proof (node_of_ok d me HI) as Hok. destruct Hok as [Hacc Hlate Hsetup Hwsel Hearly].
   destruct (n_pc (node_of d me)) as [|rest calcs tks|rest tks| | | |rest| |] eqn:Epc.
   - (* PLoop *)
     set (nd := node_of d me) in *.
@@ -615,7 +625,7 @@ Proof.
       cbv zeta in *. set (d1 := add_wait_run d me calcs true) in *.
       assert (Hpc1 : n_pc (node_of d1 me) = PCalc [] calcs tks) by (rewrite (ar_pc _ _ _ _ RA); exact Epc).
       assert (Hok' : node_ok d1 me (nd_pc (node_of d1 me) (PTask tks tks))).
-      { apply node_okw_pc; [apply HE| | simpl; discriminate | discriminate].
+      { apply node_okw_pc; [apply HE| | simpl; discriminate | discriminate | first [simpl; discriminate | intros _; rewrite Hpc1; reflexivity]].
         rewrite Hpc1. simpl. intros x Hx. rewrite in_app_iff in Hx. destruct Hx as [Hx|Hx]; auto.
         destruct (PA x Hx) as [H|H]; auto. right; left. rewrite in_app_iff. right. exact H. }
       apply (REC (set_pc d1 me (PTask tks tks))); auto.
@@ -649,7 +659,7 @@ Proof.
       assert (RS : step_rel d d1 me) by (eapply step_rel_of_awr; eauto).
       (* back to the top of the loop (more deps arrived, or something to wait for) *)
       assert (HokL : node_ok d1 me (nd_pc (node_of d1 me) PLoop)).
-      { apply node_okw_pc; [apply HE| | simpl; discriminate | discriminate].
+      { apply node_okw_pc; [apply HE| | simpl; discriminate | discriminate | first [simpl; discriminate | intros _; rewrite Hpc1; reflexivity]].
         rewrite Hpc1. simpl. intros x Hx.
         destruct (PA x Hx) as [H|H]; auto. right; left. rewrite in_app_iff. left. exact H. }
       assert (IL : Inv (set_pc d1 me PLoop)) by (apply Inv_of_except; auto).
@@ -665,7 +675,7 @@ Proof.
         -- apply orb_negb_nil_false in Ep. apply orb_negb_nil_false in Ew.
            destruct Ep as [Ep1 Ep2]. destruct Ew as [Ew1 Ew2].
            assert (HokS : node_ok d1 me (nd_pc (node_of d1 me) PSelf)).
-           { apply node_okw_pc; [apply HE| | | discriminate].
+           { apply node_okw_pc; [apply HE| | | discriminate | first [simpl; discriminate | intros _; rewrite Hpc1; reflexivity]].
              - rewrite Hpc1. simpl. intros x Hx. destruct (PA x Hx) as [H|H]; auto.
                simpl in H. rewrite Ew1 in H. destruct H.
              - intros _. auto. }
@@ -703,38 +713,40 @@ Proof.
     { split; simpl; auto; try discriminate; try (intros _; repeat split; auto). }
     split; [apply Inv_set_node; auto|]. split; [apply set_pc_rel|].
     split; [intros _; unfold resumable; rewrite set_pc_node; simpl; discriminate|].
-    split; [congruence|]. intros _. unfold deps_final, setup_final. rewrite !set_pc_node. simpl. split; [|split; auto; discriminate].
-    intros x Hx. unfold final. rewrite (sr_st _ _ _ (set_pc_rel d me PAfterSelf)). apply Hfin. exact Hx.
+    split; [congruence|]. intros _. unfold deps_final, setup_final. rewrite !set_pc_node. simpl.
+    split; [|split; [discriminate|split; [auto|]]].
+    + intros x Hx. unfold final. rewrite (sr_st _ _ _ (set_pc_rel d me PAfterSelf)). apply Hfin. exact Hx.
+    + intros _. rewrite (sr_st _ _ _ (set_pc_rel d me PAfterSelf)). apply Hearly. reflexivity.
   - (* PAfterSelf *)
     destruct (Hlate eq_refl) as (L1 & L2 & L3 & L4). specialize (L4 ltac:(discriminate)).
-    assert (Hokp : forall p, late p = true -> p <> PSetupWaited -> node_ok d me (nd_pc (node_of d me) p)).
-    { intros p Lp Np. split; simpl; auto; try (intros E; contradiction); try (intros _; repeat split; auto).
+    assert (Hokp : forall p, late p = true -> early p = false -> p <> PSetupWaited -> node_ok d me (nd_pc (node_of d me) p)).
+    { intros p Lp Ep Np. split; simpl; auto; try (intros E; contradiction); try (intros E; congruence); try (intros _; repeat split; auto).
       all: try (intros x Hx; destruct (Hacc x Hx) as [H|[H|[H|H]]]; auto; destruct H). }
     destruct (is_nil (t_setup (get_task me))) eqn:Es.
-    + inversion Hg; subst. split; [first [intros k Ek; discriminate | intros k Ek; inversion Ek; subst; destruct (K1 eq_refl) as (Kne & Kpc & Kfresh & Kex); split; [unfold resumable; unfold Dispatch.set_pc; rewrite node_of_set_other by auto; rewrite Kpc; discriminate | split; [unfold Dispatch.set_pc; apply nodes_set_ex; exact Kex | intros z Hz Ez; subst; congruence]]]|]. split; [apply Inv_set_node; auto; apply Hokp; [reflexivity|discriminate]|].
+    + inversion Hg; subst. split; [first [intros k Ek; discriminate | intros k Ek; inversion Ek; subst; destruct (K1 eq_refl) as (Kne & Kpc & Kfresh & Kex); split; [unfold resumable; unfold Dispatch.set_pc; rewrite node_of_set_other by auto; rewrite Kpc; discriminate | split; [unfold Dispatch.set_pc; apply nodes_set_ex; exact Kex | intros z Hz Ez; subst; congruence]]]|]. split; [apply Inv_set_node; auto; apply Hokp; [reflexivity|reflexivity|discriminate]|].
       split; [apply set_pc_rel|]. split; [intros _; unfold resumable; rewrite set_pc_node; simpl; discriminate|].
       split; [|discriminate]. intros _. eapply Pre_step; [exact HP|apply set_pc_rel|].
       rewrite set_pc_node. simpl. discriminate.
     + assert (Hst : st_of d me <> SNone) by (apply HP; exact Epc).
       destruct (n_st (node_of d me)) eqn:Est; [exfalso; apply Hst; exact Est| | | | |];
         (apply (REC (set_pc d me PAfterSelWait)); auto;
-         [ apply Inv_set_node; auto; apply Hokp; [reflexivity|discriminate]
+         [ apply Inv_set_node; auto; apply Hokp; [reflexivity|reflexivity|discriminate]
          | apply set_pc_rel
          | eapply Pre_step; [exact HP|apply set_pc_rel|]; rewrite set_pc_node; simpl; discriminate
          | unfold resumable; rewrite set_pc_node; simpl; discriminate ]).
   - (* PAfterSelWait *)
     destruct (Hlate eq_refl) as (L1 & L2 & L3 & L4). specialize (L4 ltac:(discriminate)).
-    assert (Hokp : forall p, late p = true -> p <> PSetupWaited -> node_ok d me (nd_pc (node_of d me) p)).
-    { intros p Lp Np. split; simpl; auto; try (intros E; contradiction); try (intros _; repeat split; auto).
+    assert (Hokp : forall p, late p = true -> early p = false -> p <> PSetupWaited -> node_ok d me (nd_pc (node_of d me) p)).
+    { intros p Lp Ep Np. split; simpl; auto; try (intros E; contradiction); try (intros E; congruence); try (intros _; repeat split; auto).
       all: try (intros x Hx; destruct (Hacc x Hx) as [H|[H|[H|H]]]; auto; destruct H). }
     assert (Hend : (YEnd, set_pc d me PDone) = (y, d') -> step_post d d' me y).
-    { intros E. inversion E; subst. split; [first [intros k Ek; discriminate | intros k Ek; inversion Ek; subst; destruct (K1 eq_refl) as (Kne & Kpc & Kfresh & Kex); split; [unfold resumable; unfold Dispatch.set_pc; rewrite node_of_set_other by auto; rewrite Kpc; discriminate | split; [unfold Dispatch.set_pc; apply nodes_set_ex; exact Kex | intros z Hz Ez; subst; congruence]]]|]. split; [apply Inv_set_node; auto; apply Hokp; [reflexivity|discriminate]|].
+    { intros E. inversion E; subst. split; [first [intros k Ek; discriminate | intros k Ek; inversion Ek; subst; destruct (K1 eq_refl) as (Kne & Kpc & Kfresh & Kex); split; [unfold resumable; unfold Dispatch.set_pc; rewrite node_of_set_other by auto; rewrite Kpc; discriminate | split; [unfold Dispatch.set_pc; apply nodes_set_ex; exact Kex | intros z Hz Ez; subst; congruence]]]|]. split; [apply Inv_set_node; auto; apply Hokp; [reflexivity|reflexivity|discriminate]|].
       split; [apply set_pc_rel|]. split; [intros _; unfold resumable; rewrite set_pc_node; simpl; discriminate|].
       split; [|discriminate]. intros _. eapply Pre_step; [exact HP|apply set_pc_rel|].
       rewrite set_pc_node. simpl. discriminate. }
     destruct (n_st (node_of d me)) eqn:Est; try (apply Hend; exact Hg).
     apply (REC (set_pc d me (PSetup (t_setup (get_task me))))); auto.
-    + apply Inv_set_node; auto. apply Hokp; [reflexivity|discriminate].
+    + apply Inv_set_node; auto. apply Hokp; [reflexivity|reflexivity|discriminate].
     + apply set_pc_rel.
     + eapply Pre_step; [exact HP|apply set_pc_rel|]. rewrite set_pc_node. simpl. discriminate.
     + unfold resumable. rewrite set_pc_node. simpl. discriminate.
@@ -752,7 +764,7 @@ Proof.
       destruct (is_nil (n_wrun (node_of d1 me))) eqn:Ew.
       * apply is_nil_true in Ew. inversion Hg; subst. split; [first [intros k Ek; discriminate | intros k Ek; inversion Ek; subst; destruct (K1 eq_refl) as (Kne & Kpc & Kfresh & Kex); split; [unfold resumable; unfold Dispatch.set_pc; rewrite node_of_set_other by auto; rewrite Kpc; discriminate | split; [unfold Dispatch.set_pc; apply nodes_set_ex; exact Kex | intros z Hz Ez; subst; congruence]]]|].
         assert (HokD : node_ok d1 me (nd_pc (node_of d1 me) PDone)).
-        { apply node_okw_pc; [apply HE| | | discriminate].
+        { apply node_okw_pc; [apply HE| | | discriminate | first [simpl; discriminate | intros _; rewrite Hpc1; reflexivity]].
           - rewrite Hpc1. simpl. intros x [].
           - intros _. destruct Hlate1 as (A & B & C). repeat split; auto. }
         split; [apply Inv_of_except; auto|].
@@ -760,7 +772,7 @@ Proof.
         split; [intros _; unfold resumable; rewrite set_pc_node; simpl; discriminate|].
         split; [congruence|]. intros _. unfold deps_final, setup_final. rewrite !set_pc_node. simpl.
         assert (Hst' : forall x, st_of (set_pc d1 me PDone) x = st_of d1 x) by (apply (sr_st _ _ _ (set_pc_rel d1 me PDone))).
-        split; [|split; [|auto]].
+        split; [|split; [|split; [auto|discriminate]]].
         -- intros x Hx. unfold final. rewrite Hst'.
            destruct (okw_acc _ _ (proj2 HE) x Hx) as [H|[H|[H|H]]]; auto.
            ++ destruct Hlate1 as (A & B & C). rewrite A, B in H. destruct H.
@@ -770,7 +782,7 @@ Proof.
            destruct (PA x Hx) as [H|H]; auto. simpl in H. rewrite Ew in H. destruct H.
       * inversion Hg; subst. split; [first [intros k Ek; discriminate | intros k Ek; inversion Ek; subst; destruct (K1 eq_refl) as (Kne & Kpc & Kfresh & Kex); split; [unfold resumable; unfold Dispatch.set_pc; rewrite node_of_set_other by auto; rewrite Kpc; discriminate | split; [unfold Dispatch.set_pc; apply nodes_set_ex; exact Kex | intros z Hz Ez; subst; congruence]]]|].
         assert (HokW : node_ok d1 me (nd_pc (node_of d1 me) PSetupWaited)).
-        { apply node_okw_pc; [apply HE| | | ].
+        { apply node_okw_pc; [apply HE| | |  | first [simpl; discriminate | intros _; rewrite Hpc1; reflexivity]].
           - rewrite Hpc1. simpl. intros x [].
           - intros _. destruct Hlate1 as (A & B & C). repeat split; auto. intros E; contradiction.
           - intros _ x Hx. destruct (PA x Hx) as [H|H]; auto. }
@@ -806,7 +818,7 @@ Proof.
     split; [intros _; unfold resumable; rewrite set_pc_node; simpl; discriminate|].
     split; [congruence|]. intros _. unfold deps_final, setup_final. rewrite !set_pc_node. simpl.
     assert (Hst' : forall x, st_of (set_pc d me PDone) x = st_of d x) by (apply (sr_st _ _ _ (set_pc_rel d me PDone))).
-    split; [|split; [|auto]].
+    split; [|split; [|split; [auto|discriminate]]].
     + intros x Hx. unfold final. rewrite Hst'. destruct (Hacc x Hx) as [H|[H|[H|H]]]; auto.
       * rewrite L1, L2 in H. destruct H.
       * destruct H.
@@ -830,14 +842,14 @@ Lemma wake_node_ok d w fin :
    n_pc (node_of d w) = PSetupWaited -> n_wrun (wake_node (node_of d w) fin (st_of d fin)) = []).
 Proof.
   intros HI Hfin.
-  destruct (node_of_ok d w HI) as [Hacc Hlate Hsetup Hwsel].
+  destruct (node_of_ok d w HI) as [Hacc Hlate Hsetup Hwsel Hearly].
   set (nd := node_of d w) in *. set (fs := st_of d fin) in *.
   unfold Dispatch.wake_node, Dispatch.wake_ready.
   destruct (parent_status_fields nd fin fs) as (f1 & f2 & f3 & f4 & f5 & f6 & f7 & f8 & f9). cbv zeta in *.
   set (nw := parent_status nd fin fs) in *.
   set (nw1 := nd_wait nw (rem fin (n_wrun nw)) (rem fin (n_wcalc nw))).
   assert (Hokw1 : node_okw d nw1).
-  { split; unfold nw1; simpl; rewrite ?f1, ?f2, ?f5, ?f6, ?f7, ?f8; auto.
+  { split; unfold nw1; simpl; rewrite ?f1, ?f2, ?f5, ?f6, ?f7, ?f8, ?f9; auto.
     - intros x Hx. destruct (Hacc x Hx) as [H|[H|[H|H]]]; auto.
       destruct (N.eqb_spec x fin) as [->|Hne]; auto.
       right; right; left. rewrite in_app_iff in *. rewrite f3, f4.
@@ -853,7 +865,7 @@ Proof.
     split; [|split; [exact Hpc|split]].
     + pose proof (process_calc_okw d nw1 fin fs) as Hp.
       assert (Hl1 : late (n_pc nw1) = false) by (unfold nw1; simpl; rewrite f1; exact Hnl).
-      specialize (Hp Hl1 Hokw1). destruct Hp as [P1 P2 P3].
+      specialize (Hp Hl1 Hokw1). destruct Hp as [P1 P2 P3 P4].
       split; auto.
       * rewrite Hpc, Hnl. discriminate.
       * rewrite Hpc. intros E. rewrite E in Hnl. discriminate.
@@ -861,7 +873,7 @@ Proof.
       apply rem_In in Hy. exact Hy.
     + intros _ E. rewrite E in Hnl. discriminate.
   - split; [|split; [unfold nw1; simpl; exact f1|split]].
-    + destruct Hokw1 as [P1 P2 P3]. split; auto.
+    + destruct Hokw1 as [P1 P2 P3 P4]. split; auto.
       * unfold nw1 at 1 2 3. simpl. rewrite f1. intros L. destruct (Hlate L) as (A & B & C & D).
         destruct (P2 ltac:(unfold nw1; simpl; rewrite f1; exact L)) as (A' & B' & C').
         repeat split; auto. intros Np. unfold nw1. simpl. rewrite f3, (D Np). reflexivity.
@@ -1068,7 +1080,8 @@ Definition disp_post (d d' : dstate) (y : dyield) : Prop :=
   match y with
   | DTask k => d_cur d' = Some k /\ deps_final d' k /\
                (n_pc (node_of d' k) = PDone -> setup_final d' k) /\
-               (n_pc (node_of d' k) = PAfterSelf \/ n_pc (node_of d' k) = PDone) /\ PreX d' k
+               (n_pc (node_of d' k) = PAfterSelf \/ n_pc (node_of d' k) = PDone) /\
+               (n_pc (node_of d' k) = PAfterSelf -> st_of d' k = SNone) /\ PreX d' k
   | _ => Pre d'
   end.
 
@@ -1132,12 +1145,12 @@ Proof.
            apply addset_In in Hz. destruct Hz as [->|Hz]; apply Ex1; auto.
       * exact Hd.
     + (* the task is handed to the runner *)
-      inversion Hd; subst. destruct (Y1 eq_refl) as (Y2 & Y3 & Y4).
+      inversion Hd; subst. destruct (Y1 eq_refl) as (Y2 & Y3 & Y4 & Y5).
       split; [exact I1|]. split.
       { intros z [Hz|Hz]; [rewrite q3 in Hz; inversion Hz; subst; apply (Q1 ltac:(discriminate))|].
         rewrite q1 in Hz. apply ResReady; exact Hz. }
       split. { split; rewrite ?q1, ?q2, ?q3; auto. all: try (intros z Hz; apply Ex1; destruct Hz as [Hz|[Hz|Hz]]; auto). }
-      split; [apply (sr_st _ _ _ R1)|]. split; [apply (sr_all _ _ _ R1)|]. split; [rewrite q3; reflexivity|]. split; auto. split; auto. split; auto.
+      split; [apply (sr_st _ _ _ R1)|]. split; [apply (sr_all _ _ _ R1)|]. split; [rewrite q3; reflexivity|]. split; auto. split; auto. split; auto. split; auto.
       intros z Hz Hpc. rewrite (sr_st _ _ _ R1). apply HP.
       destruct (sr_other _ _ _ R1 z Hz) as [E _]. congruence.
     + (* generator exhausted *)
